@@ -28,6 +28,37 @@ def history_body(prop, monitors_factory, ch, ctx, did, twin=False, **pol):
     return env.summary()
 
 
+def sliced(o, n, depth=8):
+    """Split one obligation into n workers; the union of the slices is the whole space."""
+    out = []
+    for i in range(n):
+        d = dict(o)
+        d["id"] = "%s#%d" % (o["id"], i)
+        d["slice"] = [i, n, depth]
+        out.append(d)
+    return out
+
+
+def control_slices(o, boundaries):
+    """Partition an obligation whose policy has control="either"/"pause"/"cancel" by the kind
+    and position of the control request: one worker per (kind, boundary) plus one for the
+    histories without a request. The union is exactly the unsliced space."""
+    ctl = o["params"]["control"]
+    kinds = {"either": (True, False), "pause": (True,), "cancel": (False,)}[ctl]
+    out = []
+    d = dict(o)
+    d["id"] = o["id"] + "#none"
+    d["fixed"] = dict(o.get("fixed") or {}, ctl_at=-1)
+    out.append(d)
+    for b in range(boundaries):
+        for is_pause in kinds:
+            d = dict(o)
+            d["id"] = "%s#%s%d" % (o["id"], "p" if is_pause else "c", b)
+            d["fixed"] = dict(o.get("fixed") or {}, ctl_at=b, ctl_is_pause=is_pause)
+            out.append(d)
+    return out
+
+
 def ob(prop, name, body, params, timeout=300, fixed=None, kind="e2c"):
     return {
         "id": "%s.%s" % (prop, name),
